@@ -8,6 +8,8 @@
 From Coq Require Import List Bool Arith.
 Import ListNotations.
 Require Import MV.Model.Orch MV.Model.Lifecycle MV.Proofs.LifecycleP.
+Require Import MV.Model.Worker MV.Spec.WorkerSpec MV.Model.Session MV.Spec.Reuse MV.Model.FlightKeys MV.Spec.FlightKeysSpec.
+Require Import MV.Proofs.WorkerWitP MV.Proofs.FlightKeysP MV.Proofs.FlightKeysWorkerP.
 
 (* for every children set and every sequence of processed feature-group steps: *)
 Theorem C09_no_premature_drop : forall ch fss, dropped (process_all (new_obj ch) fss) = true ->
@@ -37,3 +39,126 @@ Print Assumptions C09_tasks_joined_on_every_exit.
 Example C09_copied_children_never_dropped :
   dropped (process_all (new_obj [1; 2; 3]) [[3]]) = false /\ dropped (process_all (new_obj [3]) [[3]]) = true.
 Proof. vm_compute. split; reflexivity. Qed.
+
+(* ================================================================================================================== *)
+(* Dataset keys across the runs of ONE prepared session against ONE long-lived Flight store (Model/FlightKeys.v).
+   A run's keys are the uuids of its compute-framework objects: uuid4() values (r_fresh) and, for the objects of transform
+   steps, the uuid of the STEP (r_stable) - a value of the session's plan, the same in every run.  Workers upload / drop the key of
+   their own object (r_body); the main process sweeps ALL keys of the run's objects on every exit path that reaches join()
+   (r_sweep).  exec_krun CDirect is the code; CMemo is the regression "skip keys this process has already dropped". *)
+
+(* (1) one run, started on ANY store and after ANY history: none of its keys is left, nothing else was added or lost *)
+Theorem C09_swept_run_leaves_nothing : forall h r, body_okb r = true -> r_sweep r = Some true ->
+  run_leaves_nothing CDirect h r.
+Proof. exact direct_run_clean_l. Qed.
+Print Assumptions C09_swept_run_leaves_nothing.
+
+Theorem C09_swept_run_store_exact : forall h r, body_okb r = true -> r_sweep r = Some true ->
+  store (exec_krun CDirect h r) = remove_all (r_keys r) (store h).
+Proof. exact direct_run_exact_l. Qed.
+
+Theorem C09_run_clean_after_any_history : forall pre h r, body_okb r = true -> r_sweep r = Some true ->
+  forall k, In k (r_keys r) -> ~ In k (store (exec_khist CDirect h (pre ++ [r]))).
+Proof. exact direct_run_clean_any_history_l. Qed.
+Print Assumptions C09_run_clean_after_any_history.
+
+(* (2) histories of any length, keys repeating or not: the store is what it was before the first run minus every key of the
+   history; after EVERY run no key of that run is in it and it holds nothing new *)
+Theorem C09_history_store_exact : forall rs h, all_ok rs ->
+  store (exec_khist CDirect h rs) = remove_all (flat_map r_keys rs) (store h).
+Proof. exact direct_hist_exact_l. Qed.
+Print Assumptions C09_history_store_exact.
+
+Theorem C09_every_run_of_a_history_leaves_nothing : forall rs h, all_ok rs -> forall rs1 r rs2, rs = rs1 ++ r :: rs2 ->
+  (forall k, In k (r_keys r) -> ~ In k (store (exec_khist CDirect h (rs1 ++ [r])))) /\
+  incl (store (exec_khist CDirect h (rs1 ++ [r]))) (store h).
+Proof. exact direct_every_run_clean_l. Qed.
+Print Assumptions C09_every_run_of_a_history_leaves_nothing.
+
+(* (3) why keys repeat: whatever a prepared session has done (runs, failing runs, drained / abandoned streams, get_result), its
+   plan is the one it was prepared with (Model/Session.v), hence so are the keys derived from it *)
+Theorem C09_plan_derived_keys_repeat : forall p a0 h,
+  stable_keys (s_plan (after sess op result (exec true) (prepare p a0) h)) = stable_keys p.
+Proof. exact stable_keys_invariant_l. Qed.
+Print Assumptions C09_plan_derived_keys_repeat.
+
+(* (4) the regression.  Full statement "forall rs, all_ok rs -> the stores of CMemo are those of CDirect" FAILS.
+   It holds when no key ever repeats - single API calls, first runs of sessions: *)
+Theorem C09_memo_same_without_repeats_partial : forall rs hm hd, (forall r, In r rs -> body_okb r = true) ->
+  NoDup (flat_map r_keys rs) -> (forall k, In k (flat_map r_keys rs) -> ~ In k (memo hm)) -> store hm = store hd ->
+  store (exec_khist CMemo hm rs) = store (exec_khist CDirect hd rs).
+Proof. exact memo_no_repeat_equiv_l. Qed.
+Print Assumptions C09_memo_same_without_repeats_partial.
+
+(* ... and a key the main process has memoised (it swept it in an earlier run) that a worker uploads again survives the run *)
+Theorem C09_memo_rememoised_key_survives : forall h r k b1 b2, In k (memo h) -> r_body r = b1 ++ SUp k :: b2 ->
+  (forall e, In e b2 -> e <> SWDrop k) -> In k (store (exec_krun CMemo h r)).
+Proof. exact memo_rememoised_key_survives_l. Qed.
+Print Assumptions C09_memo_rememoised_key_survives.
+
+Theorem C09_memoising_sweep_refuted :
+  hist_okb [7] [] wit_hist = true /\ forallb body_okb wit_hist = true /\ repeated wit_hist = [7; 7] /\
+  stores CDirect h0 wit_hist = [[]; []; []] /\ stores CMemo h0 wit_hist = [[]; [7]; [7]].
+Proof. exact memo_leak_refuted_l. Qed.
+Print Assumptions C09_memoising_sweep_refuted.
+
+Theorem C09_memoising_store_grows_refuted :
+  store (exec_khist CMemo h0 [wit_run 1; wit_run 2; wit_run2 3; wit_run2 4]) = [8; 7] /\
+  store (exec_khist CDirect h0 [wit_run 1; wit_run 2; wit_run2 3; wit_run2 4]) = [].
+Proof. exact memo_store_grows_refuted_l. Qed.
+
+(* (5) the runs of the protocol model (Model/Worker.v: every interleaving, failure oracle, exit path) ARE such runs, for every
+   assignment kap of keys to their objects: the workers' store actions concern keys of objects in `tasks`, and an exit through a
+   finally block that reached join() without a raising final drop has swept, once, as its last action *)
+Theorem C09_protocol_run_is_key_run : forall c kap stab tr st x, Worker.exec c pinit tr = Some st ->
+  body_okb (run_of kap stab c tr st) = true /\
+  (pc st = PExited x -> x <> XFinallyCrash -> mp c = true -> dropfail st = false -> r_sweep (run_of kap stab c tr st) = Some true).
+Proof. intros c kap stab tr st x E. split; [exact (worker_run_body_ok_l c kap stab tr st E) | intros; eapply worker_run_swept_l; eauto]. Qed.
+Print Assumptions C09_protocol_run_is_key_run.
+
+Theorem C09_protocol_run_store : forall c kap stab tr st x h, Worker.exec c pinit tr = Some st -> pc st = PExited x -> x <> XFinallyCrash ->
+  mp c = true -> dropfail st = false ->
+  store (exec_krun CDirect h (run_of kap stab c tr st)) = remove_all (map kap (tasks st)) (store h).
+Proof. exact worker_run_store_l. Qed.
+Print Assumptions C09_protocol_run_store.
+
+(* histories of protocol runs (each with its own configuration, trace and key assignment) against one store *)
+Theorem C09_protocol_history_store : forall stab prs h, (forall r, In r prs -> prun_clean r) ->
+  store (exec_khist CDirect h (map (krun_of stab) prs)) = remove_all (flat_map prun_keys prs) (store h).
+Proof. exact protocol_history_store_l. Qed.
+Print Assumptions C09_protocol_history_store.
+
+Theorem C09_protocol_history_every_run_leaves_nothing : forall stab prs h, (forall r, In r prs -> prun_clean r) ->
+  forall pre r post, prs = pre ++ r :: post ->
+  (forall k, In k (prun_keys r) -> ~ In k (store (exec_khist CDirect h (map (krun_of stab) (pre ++ [r]))))) /\
+  incl (store (exec_khist CDirect h (map (krun_of stab) (pre ++ [r])))) (store h).
+Proof. exact protocol_history_every_run_clean_l. Qed.
+Print Assumptions C09_protocol_history_every_run_leaves_nothing.
+
+(* Worker.v's run-local `flight` is this model's store started empty with key = worker id (before the sweep; the sweep is c_drop
+   over `tasks`) *)
+Theorem C09_flight_is_the_key_store : forall c tr st0 st wm, Worker.exec c st0 tr = Some st -> (forall ok, ~ In (ODropAll ok) tr) ->
+  flight st = snd (body CDirect wm (flight st0) (sevs (fun w => w) c st0 tr)).
+Proof. exact flight_is_store_l. Qed.
+Theorem C09_flight_sweep_is_the_key_sweep : forall c st ok st', Worker.step c st (ODropAll ok) = Some st' -> mp c = true ->
+  flight st' = snd (if ok then c_drop CDirect [] (tasks st) (flight st) else ([], flight st)).
+Proof. exact flight_sweep_l. Qed.
+Print Assumptions C09_flight_is_the_key_store.
+
+(* non-vacuity: three protocol runs (complete / worker failure after the upload / send failure) of a session whose object is
+   transform-created (key 7 in every run) on a store that held a foreign key 9 and a stale 7 *)
+Example C09_protocol_history_example :
+  (forall r, In r ex_history -> prun_clean r) /\
+  map (fun r => r_body (krun_of [7] r)) ex_history = [[SUp 7; SWDrop 7]; [SUp 7]; []] /\
+  map (fun r => r_stable (krun_of [7] r)) ex_history = [[7]; [7]; [7]] /\
+  stores CDirect {| store := [9; 7]; memo := [] |} (map (krun_of [7]) ex_history) = [[9]; [9]; [9]] /\
+  stores CMemo {| store := [9; 7]; memo := [] |} (map (krun_of [7]) ex_history) = [[9]; [7; 9]; [7; 9]].
+Proof. split; [exact ex_history_clean | exact protocol_history_example_l]. Qed.
+
+(* (6) what an accepted observation (harness/c09_rerun.py, checker chk_rerun) says: the store observed after the n-th call of a
+   session is, as a set, the model's store after n runs *)
+Theorem C09_rerun_checker_sound : forall k, chk_rerun k = true -> forall n o, nth_error (hc_runs k) n = Some o ->
+  forall x, In x (or_after o) <->
+            In x (store (exec_khist CDirect {| store := hc_store0 k; memo := [] |} (firstn (S n) (map or_run (hc_runs k))))).
+Proof. exact chk_rerun_sound_l. Qed.
+Print Assumptions C09_rerun_checker_sound.
